@@ -17,12 +17,14 @@ func init() {
 			"rejected there), the test that the decoded prefix equals the configured prefix, a successful ConvertBits with the bit widths in the decoding direction (toBits → fromBits), and the test that the decoded " +
 			"length equals the configured length; the returned bytes are that ConvertBits result. Encode returns a non-empty string only as bech32.Encode(configured prefix, ConvertBits(input, fromBits → toBits)) " +
 			"of an input of the configured length, with both errors checked - the same prefix and the mirrored bit widths Decode uses. hexPubkeyConverter.Decode returns only the hex.DecodeString result of the " +
+			"No refusal of Decode is decided by the length of the text. " +
 			"configured length. Not decided (value-level): the round-trip equality itself (bech32 library arithmetic).",
 		Run: runC48,
 	})
 }
 
 func runC48(c *core.Ctx) {
+	c48RefusalsHaveADecodingReason(c)
 	const pkg = "core/pubkeyConverter"
 	if fn := anchorM(c, pkg, "bech32PubkeyConverter", "Decode"); fn != nil {
 		var dec, conv *ssa.Call
@@ -167,4 +169,39 @@ func runC48(c *core.Ctx) {
 			}, core.NilReturn, nil, "hex decoding succeeds (error checked) before bytes are returned")
 	}
 	c.Floor("C48/decode-rejects", 8)
+}
+
+// c48RefusalsHaveADecodingReason: Decode must accept every text Encode produces. It refuses for
+// what the bech32 library reports, for a foreign prefix, or for a payload of the wrong byte length -
+// never on the length of the TEXT, which would have to be precomputed from the address length by an
+// arithmetic of its own (ceil(8n/5) is not 8n/5+1 when 5 divides n: found independently twice).
+func c48RefusalsHaveADecodingReason(c *core.Ctx) {
+	fn := anchorM(c, "core/pubkeyConverter", "bech32PubkeyConverter", "Decode")
+	if fn == nil || len(fn.Params) < 2 {
+		return
+	}
+	text := ssa.Value(fn.Params[1])
+	n, bad := 0, ""
+	for _, r := range core.Returns(fn) {
+		if core.NilReturn(r, nil) {
+			continue
+		}
+		n++
+		for _, cd := range core.CondsAt(r.Block()) {
+			bo, ok := cd.V.(*ssa.BinOp)
+			if !ok {
+				continue
+			}
+			for _, side := range []ssa.Value{bo.X, bo.Y} {
+				if call, isCall := side.(*ssa.Call); isCall {
+					if b, isB := call.Call.Value.(*ssa.Builtin); isB && b.Name() == "len" && call.Call.Args[0] == text {
+						bad = "a comparison of len(text) at " + c.P.Pos(bo.Pos())
+					}
+				}
+			}
+		}
+	}
+	c.Check(n >= 2 && bad == "", "C48/refusals-have-a-decoding-reason", "bech32PubkeyConverter.Decode", fn.Pos(),
+		"no refusal is decided by the length of the text",
+		"bech32PubkeyConverter.Decode refuses a text because of "+bad+": the expected text length is a separate arithmetic over the address length, and where it disagrees with the encoder (address lengths that are multiples of 5) every encoded address is refused - decode(encode(b)) fails")
 }
